@@ -638,6 +638,7 @@ impl<'a> PairCtx<'a> {
     /// All pair-level clauses for (a,b). `ia`/`ib` are indices if a,b are stored states (for
     /// replay expressions); ea/eb are their expressions.
     pub fn check_pair(&self, a: &St, b: &St, same: bool, a_before_b: bool, ea: &dyn Fn() -> Value, eb: &dyn Fn() -> Value, c: &mut Counters) -> (Option<Res>, Option<Res>) {
+        crate::report::beat();
         let e = self.e;
         let u = &e.u;
         let m = self.mask;
@@ -982,6 +983,7 @@ impl<'a> PairCtx<'a> {
 
     /// Per-state clauses (run once for every distinct reached state).
     pub fn check_state(&self, st: &St, expr: &dyn Fn() -> Value, c: &mut Counters) {
+        crate::report::beat();
         let e = self.e;
         let u = &e.u;
         let m = self.mask;
